@@ -183,6 +183,35 @@ def step (d : DState) (line : String) : DState × String :=
           | [] => (d, "bad-op")
       | none => (d, "bad-op")
     | _ => (d, "bad-op")
+  | "addrace" :: rest =>
+    -- `addrace <store D> ; <store E> => <observed>`: D's deadline fires while Store(D) is inside deadliner.Add(D)
+    -- (answer already decided), Store(E) is issued at that instant. With db.mu held during Add, Store(D) completes
+    -- first and consumes D in its own expiry loop, then Store(E) runs. Accepted outcomes: that exact execution
+    -- (D queued on C() but not yet refused for the first call), or the op sequence `store D; expire D; store E`
+    -- (same result unless E writes into D's index).
+    match splitToks "=>" rest with
+    | [lhs, obs] =>
+      match (splitToks ";" lhs).mapM subOp? with
+      | some [Op.store dD _ setD, Op.store dE _ setE] =>
+        let observed := Driver.joinWith " " obs
+        let render (r1 r2 : State × Out) : State × String :=
+          let resolved := (r1.2.resolved ++ r2.2.resolved).foldl (fun acc a => insertByQid a acc) []
+          (r2.1, resStr r1.2.res ++ " " ++ resStr r2.2.res ++ " " ++ resolvedStr resolved ++ " " ++ snapStr r2.1)
+        -- exact: D is on C() when Store(D) runs, and refused from then on
+        let a1 := CharonV.DutyDB.step d.cfg { d.st with chan := d.st.chan ++ [dD] } (.store dD false setD)
+        let a2 := CharonV.DutyDB.step d.cfg { a1.1 with expired := dD :: a1.1.expired } (.store dE false setE)
+        -- as a sequence of model ops
+        let b1 := CharonV.DutyDB.step d.cfg d.st (.store dD false setD)
+        let b2 := CharonV.DutyDB.step d.cfg (CharonV.DutyDB.step d.cfg b1.1 (.expire dD true)).1 (.store dE false setE)
+        let cands := [render a1 a2, render b1 b2]
+        match cands.find? (fun c => c.2 == observed) with
+        | some c => ({ d with st := c.1 }, "lin " ++ observed)
+        | none =>
+          match cands with
+          | c :: _ => ({ d with st := c.1 }, "nolin " ++ c.2)
+          | [] => (d, "bad-op")
+      | _ => (d, "bad-op")
+    | _ => (d, "bad-op")
   | "store" :: ty :: slot :: st :: toks =>
     match dtype? ty, slot.toNat?, toks.mapM entry? with
     | some t, some sl, some set =>
